@@ -12,4 +12,5 @@ cp spec/*.tla "$tmp"/
 for f in "$tmp"/*.tla; do
   (cd "$tmp" && timeout 120 tla-sany "$(basename "$f")" >"$tmp/sany.out" 2>&1) || { echo "SANY failed on $f"; cat "$tmp/sany.out"; exit 1; }
 done
+python3 tools/selftest.py || { echo "binding self-test failed"; exit 1; }
 echo "setup ok: $(ls spec/*.tla | wc -l) modules parsed"
